@@ -40,7 +40,7 @@ REDIRECTS = [
 ]
 
 Q, T = ["quick", "thorough"], ["thorough"]
-CAP_Q = {"quick": 420, "thorough": 1200}
+CAP_Q = {"quick": 720, "thorough": 1500}
 CAP_T = {"quick": 900, "thorough": 1500}
 KEY = "slot any u64, slice any index < 1024, shred index any < 64"
 
